@@ -212,6 +212,15 @@ theorem c12_widths_and_storage :
   obtain ⟨r, hr, _, hb⟩ := closeInner_ok doc hH openPat cp closeLen h1 h2 h3 fuel cur dc le h4 h5 h6
   exact ⟨r, hr, hb⟩
 
+/-- C12 tie of the depth guard's state: `parser.callback_stack`, whose length the depth test of
+`aws_xml_node_traverse` compares with `options.max_depth` and whose push result the traversal ignores, is a
+dynamic list in the current source, so its length follows the nesting for *every* `max_depth` (not only up to some
+fixed capacity) - as the unbounded `PState.depth` of the model, for which `c12_limits_rejected` is proved with an
+arbitrary limit; and the depth test itself is `>=`. -/
+theorem c12_depth_guard_state : XmlConsts.callbackStackDynamic = true ∧
+    (∀ d m, XmlConsts.depth_exceeded d m ≠ 0 ↔ d ≥ m) ∧ (∀ m, XmlConsts.effective_max_depth m = effMaxDepth m) :=
+  ⟨callback_stack_dynamic, depth_test_bridge, fun m => by rw [effective_max_depth_bridge]; rfl⟩
+
 /-- verdict of a run, for the concrete examples -/
 def verdict : Except Fault Result → Option (Bool × Nat)
   | .ok r => some (r.ok, r.events.length)
